@@ -202,3 +202,17 @@ Proof.
   - intros x Hx. eapply Permutation_in; [exact P | exact Hx].
   - intros u Hu. left. eapply Permutation_in; [apply Permutation_sym, P | exact Hu].
 Qed.
+
+(* ---------- T4: the decision is exact ---------- *)
+(* For items with distinct names the sort succeeds exactly when some arrangement of the same items puts every
+   item after the items it depends on; the arrangement it returns is one of them. *)
+Corollary sort_succeeds_iff_orderable us :
+  NoDup (map fst us) ->
+  (sort_unnestings us <> None <->
+   exists out', Permutation us out' /\ scoped_order (map fst us) [] out' = true).
+Proof.
+  intros ND. split.
+  - destruct (sort_unnestings us) as [out|] eqn:E; [intros _ | intros H; exfalso; apply H; reflexivity].
+    exists out. split; [apply sort_is_permutation; assumption | apply sort_is_scoped; assumption].
+  - intros [out' [P Hs]]. eapply sort_rejects_only_cycles; eassumption.
+Qed.
